@@ -4,7 +4,7 @@
    change sets; a create of an existing id or a delete of a missing id is an error);
    openMemTables (memtable.go: every NNNNN.mem, ascending fid, logFile.iterate in transaction
    units up to the first incomplete unit; z.OpenMmapFile returns z.NewFile for a ZERO-SIZE file
-   and openMemTables treats that as fatal: finding F23); newLevelsController/revertToManifest
+   and openMemTables treats that as fatal: finding F25); newLevelsController/revertToManifest
    (levels.go: a MANIFEST table without file => error, an unreferenced table file => removed;
    OpenTable on an empty file fails); valueLog.open (value.go: zero-size .vlog => z.NewFile =>
    fatal, same finding).  The recovered content is the set of entries of the MANIFEST's
@@ -20,7 +20,7 @@ Open Scope N_scope.
 Record cfg := mkCfg {
   sync_writes : bool;   (* Options.SyncWrites *)
   fix_dirsync : bool;   (* repair of F9: directory fsync after creating .mem / .vlog / flushed .sst *)
-  fix_zerolog : bool    (* repair of F23: a zero-size .mem / .vlog is an empty log, not an error *)
+  fix_zerolog : bool    (* repair of F25: a zero-size .mem / .vlog is an empty log, not an error *)
 }.
 
 (* ---- MANIFEST replay (manifest.go applyManifestChange / applyChangeSet) ---- *)
